@@ -22,7 +22,7 @@ func main() {
 	for _, u := range args {
 		r := ls.GetRaw(u)
 		fmt.Printf("%s -> %d %s panic=%q len=%d\n", u, r.Status, r.Header.Get("Content-Type"), r.Panic, len(r.Body))
-		if len(r.Body) < 3000 {
+		if len(r.Body) < 30000 && r.Header.Get("Content-Type") != "video/mp4" && r.Header.Get("Content-Type") != "audio/mp4" {
 			fmt.Println(string(r.Body))
 		}
 	}
